@@ -118,7 +118,8 @@ RULE = ("cases = (built-in, Tmax, equation parameters by role, eq_params layout,
         "GLV equilibrium / stream-function fields / Poiseuille and stagnation-point flows) and the same perturbed; "
         "the inherited Fokker-Planck equation() with non-symmetric polynomial drift and diffusion; one guard case "
         "(GLV with u_main(t) = 0); every eq_params layout extract_params accepts is an ordinary case (a rejection "
-        "of one is the Holds clause valid-layout-rejected)")
+        "of one is the Holds clause valid-layout-rejected)"
+        " Plus: every built-in with a SPINN branch evaluated on separable networks (one point per axis, and more), grid index by grid index against the documented expression of the pointwise twin; a heterogeneous parameter (function reading its own base value) evaluated twice on the same Params object.")
 ASSUMPTIONS = [
     "JAX AD contract: grad/hessian/jacrev of a polynomial network return its exact partial derivatives; "
     "grad(log(u)) = u'/u",
